@@ -143,31 +143,34 @@ impl Selector {
         result
     }
 
-    pub(super) fn resolve_ref(mut self, ctx: &CssSelectorSet) -> Vec<Self> {
-        self = self.resolve_ref_in_pseudo(ctx);
+    pub(super) fn resolve_ref(
+        mut self,
+        ctx: &CssSelectorSet,
+    ) -> Result<Vec<Self>, ParseError> {
+        self = self.resolve_ref_in_pseudo(ctx)?;
         let rel_of = self.rel_of.take();
 
         let result = if self.compound.backref.is_some() {
             self.compound.backref = None;
-            ctx.s
-                .s
-                .iter()
-                .flat_map(|s| {
+            let mut result = Vec::new();
+            for s in &ctx.s.s {
+                result.extend(
                     Selector {
                         rel_of: s.rel_of.clone(),
                         compound: CompoundSelector::default(),
                     }
                     .unify(Selector {
                         rel_of: self.rel_of.clone(),
-                        compound: s.compound.append(&self.compound).unwrap(),
-                    })
-                })
-                .collect()
+                        compound: s.compound.append(&self.compound)?,
+                    }),
+                );
+            }
+            result
         } else {
             vec![self]
         };
-        if let Some(rel_of) = rel_of {
-            let rels = rel_of.1.resolve_ref(ctx);
+        Ok(if let Some(rel_of) = rel_of {
+            let rels = rel_of.1.resolve_ref(ctx)?;
             rels.into_iter()
                 .flat_map(|rel| {
                     result
@@ -193,19 +196,19 @@ impl Selector {
                 .collect()
         } else {
             result
-        }
+        })
     }
 
     pub(super) fn resolve_ref_in_pseudo(
         mut self,
         ctx: &CssSelectorSet,
-    ) -> Self {
-        self.rel_of = self.rel_of.map(|mut rel| {
-            rel.1 = rel.1.resolve_ref_in_pseudo(ctx);
-            rel
-        });
-        self.compound.resolve_ref_in_pseudo(ctx);
-        self
+    ) -> Result<Self, ParseError> {
+        if let Some(mut rel) = self.rel_of.take() {
+            rel.1 = rel.1.resolve_ref_in_pseudo(ctx)?;
+            self.rel_of = Some(rel);
+        }
+        self.compound.resolve_ref_in_pseudo(ctx)?;
+        Ok(self)
     }
 
     /// Return true iff this selector is a superselector of `sub`.
